@@ -23,18 +23,21 @@ def run(chk):
                 hy += [alg.psd(M(Mi)), alg.invok(M(Mi))]
         return hy
     chk.assume("cholesky of a Kronecker product requires positive definite FACTORS (hereditary positive definiteness, derived from the "
-               "rule's own recursive calls); a PD product of two negative definite factors is outside the contract")
+               "rule's own recursive calls); that a PD product has PD factors is a separate obligation, which fails: known finding C11-kron-negative-factors")
     spec = dict(dtypes=[np.float64, np.complex128], anns=[("PSD",)], hyps=hereditary_pd)
     rp1 = run_rules(chk, "C11", ["cholesky"], default_spec=spec)
     spec2 = dict(dtypes=[np.float64, np.complex128], anns=[()])
     rp2 = run_rules(chk, "C11", ["plu"], default_spec=spec2)
     for ob in plu_diagonal_entrywise():
         chk.add(ob)
+    chk.add(kron_hereditary())
 
     def replayer(ob):
         w = ob.witness or {}
         if w.get("engine") == "PLUDIAG":
             return plu_diag_replay()
+        if w.get("engine") == "KRONPD":
+            return kron_pd_replay()
         return rp1(ob)
     return replayer
 
@@ -83,6 +86,55 @@ def plu_diagonal_entrywise():
         return goals
     return K.run_paths("C11/plu(Diagonal)[real dtype; entries of either sign]", "cola.linalg.decompositions.decompositions.plu", thunk, dict(engine="PLUDIAG"),
                        keep_real=("plu", "sqrt", "apply_unary", "pow"))
+
+
+def kron_hereditary(prop="C11", what="cholesky", fn="cola.linalg.decompositions.decompositions.cholesky[Kronecker]", engine="KRONPD"):
+    """The precondition under which the Kronecker rule of cholesky is proved above (every FACTOR positive definite) against the property's quantifier (every positive
+    definite Kronecker product): obligation  PD(A (x) B)  ==>  PD(A) and PD(B).  It does not hold ((-A) (x) (-B) is PD for negative definite A, B)."""
+    import time
+    import z3
+    from vcgen import alg
+    from vcgen.core import DISCHARGED, FAILED, Ob
+    t0 = time.time()
+    a, b = z3.Const("A", alg.Mat), z3.Const("B", alg.Mat)
+    facts = [alg.sq(a), alg.sq(b), alg.psd(alg.kron(a, b)), alg.invok(alg.kron(a, b))]
+    res = alg.prove(facts, z3.And(alg.psd(a), alg.psd(b)), 3000)
+    ok = res["status"] == "unsat"
+    ob = Ob(key=f"{prop}/{what}(Kronecker)/every positive definite Kronecker product has positive definite factors (the precondition the factor-wise rule needs)",
+            fn=fn, clause="hereditary positive definiteness follows from positive definiteness of the product",
+            engine="ALG", status=DISCHARGED if ok else FAILED, backend="z3/cvc5", secs=time.time() - t0,
+            detail="unsat" if ok else f"{res['status']}: not a theorem, e.g. A = -I_2, B = -I_3")
+    if not ok:
+        ob.witness = dict(engine=engine)
+    return ob
+
+
+def kron_pd_replay():
+    import json
+    import subprocess
+    code = r'''
+import json, numpy as np, cola
+from cola.ops import Dense, Kronecker
+from cola.linalg.decompositions.decompositions import cholesky
+rng = np.random.default_rng(0)
+def spd(n):
+    B = rng.standard_normal((n, n)); return B @ B.T + n * np.eye(n)
+op = cola.PSD(Kronecker(Dense(-spd(2)), Dense(-spd(3))))
+out = dict(replayed=True, failing_input_found=False)
+try:
+    L = np.asarray(cholesky(op).to_dense())
+    if not np.allclose(L @ L.conj().T, np.asarray(op.to_dense())):
+        out = dict(replayed=True, failing_input_found=True, input="cholesky(PSD(Kronecker(-S2, -S3))), S2, S3 symmetric positive definite", observed="L L^H differs from A", expected="L L^H = A")
+except Exception as e:
+    out = dict(replayed=True, failing_input_found=True, input="cholesky(PSD(Kronecker(-S2, -S3))), S2, S3 symmetric positive definite (the product is positive definite)",
+               observed=f"raises {type(e).__name__}: {str(e)[:100]}", expected="a lower-triangular L with L L^H = A")
+print(json.dumps(out))
+'''
+    p = subprocess.run(["/venv/bin/python", "-W", "ignore", "-c", code], cwd="/repo", capture_output=True, text=True, timeout=300)
+    try:
+        return json.loads(p.stdout.strip().splitlines()[-1])
+    except Exception:
+        return dict(replayed=False, failing_input_found=False, error=(p.stdout + p.stderr)[-500:])
 
 
 def plu_diag_replay():
